@@ -10,8 +10,8 @@ from gen import c05_xnorth as trx
 from gen import c05_assemble as tra
 
 ID = "C05"
-PROPS_FILES = ["Gama/Props/C05.lean", "Gama/Props/C05Consistency.lean", "Gama/Props/C05Cut.lean", "Gama/Props/C05Total.lean"]
-LEAN_TARGETS = ["Gama.Props.C05", "Gama.Props.C05Consistency", "Gama.Props.C05Cut", "Gama.Props.C05Total"]
+PROPS_FILES = ["Gama/Props/C05.lean", "Gama/Props/C05Consistency.lean", "Gama/Props/C05Cut.lean", "Gama/Props/C05Total.lean", "Gama/Props/C05Input.lean"]
+LEAN_TARGETS = ["Gama.Props.C05", "Gama.Props.C05Consistency", "Gama.Props.C05Cut", "Gama.Props.C05Total", "Gama.Props.C05Input"]
 DRIVERS = ["drv_lin"]
 RULE = ("small in-memory networks (2-5 points, 1-2 stand-points, 3-9 observations) over all 13 observation classes x "
         "8 axes codes x 2 angle senses x bearing quadrants/near-axis bearings x free/fixed/constrained/unused mixes x "
@@ -435,6 +435,33 @@ def rhs_check(meta, ob, L, xn):
     return None
 
 
+def throw_check(meta, ob, line):
+    """round 9, C05_member_total_iff / C05_pass_total_iff: LocalLinearization throws EXACTLY on the singular inputs
+    (S_Distance: slope distance 0 -> zeroSlopeDistance; Z_Angle: horizontal or slope distance 0 -> zeroZenithAngle),
+    and nowhere else.  `line` is the implementation's answer (`lin ...` or `throw <kind>`); constructor rejections
+    (`throw ctor*`, value <= 0) are C11's and are skipped.  The distances are formed in the order of the C++."""
+    if not line.startswith(("lin", "throw")) or line.startswith("throw ctor"):
+        return None
+    P = meta["pts"]
+    a, b = P[ob["frm"]][:3], P[ob["to"]][:3]
+    dx, dy, dz = b[0] - a[0], b[1] - a[1], b[2] - a[2]
+    cls = ob["cls"]
+    want = None
+    if cls == "S_Distance":
+        if math.sqrt(dx * dx + dy * dy + dz * dz) == 0:
+            want = "throw zeroSlopeDistance"
+    elif cls == "Z_Angle":
+        d2 = dx * dx + dy * dy
+        if math.sqrt(d2) == 0 or math.sqrt(d2 + dz * dz) == 0:
+            want = "throw zeroZenithAngle"
+    got = line.strip() if line.startswith("throw") else None
+    if want != got:
+        return {"what": "LocalLinearization throws on a non-singular input or accepts a singular one",
+                "class": cls, "expected": want or "a row (no exception)", "got": got or "a row (no exception)",
+                "d": math.hypot(dx, dy), "sd": math.sqrt(dx * dx + dy * dy + dz * dz)}
+    return None
+
+
 # ----------------------------------------------------------------------------- correspondence
 
 def harness(ctx):
@@ -569,6 +596,10 @@ def correspond(ctx, corr):
             nobs += 1
             L = parse_lin(l)
             corr.count("obs_" + ob["cls"])
+            tbad = throw_check(meta, ob, l)
+            if tbad:
+                corr.fail(tbad["what"], {"stream": "lin", "ops": single_obs_lines(meta, ob), "detail": tbad, "meta": meta, "ob": ob},
+                          "LocalLinearization::" + ob["cls"].lower(), json.dumps(tbad))
             if L is None:
                 corr.case()
                 continue
@@ -1237,6 +1268,10 @@ def replay(ctx, payload):
     meta, ob = _meta_from_json(inp["meta"]), inp["ob"]
     still = None
     for l in impl[0]:
+        if l.startswith(("lin", "throw")):
+            still = throw_check(meta, ob, l)
+            if still:
+                break
         L = parse_lin(l)
         if L:
             still = rhs_check(meta, ob, L, xnorth(meta["cs"], meta["rh"]))
